@@ -741,7 +741,7 @@ Eval vm_compute in (map verdict cases).
     chk.validated += len(cases)
     for c, v in sorted(zip(cases, verdicts), key=lambda cv: len(cv[0][0])):
         ops, layouts, pops = c
-        case = {"ops": ["pop" if o is None else o for o in ops]}
+        case = {"heap_ops": ["pop" if o is None else o for o in ops]}
         if v == 2:
             chk.corr_break("heapq-layout", case, "the transcribed heap leaves an array without the heap condition")
         elif v == 1:
@@ -2169,6 +2169,86 @@ def gen_assert_scenario(R):
                 rules.append({"trig": ("finish",), "nth": None, "acts": [("flag", R.random() < 0.5)]})
     return sc
 
+def assert_shared_state_class(chk):
+    """predicates that read state SHARED by the nodes (a tick counter one node advances, once per event): the predicate of node i is
+    true exactly while the counter lies in window i, so several nodes' predicates may turn true -- or be true only -- after one and the
+    same event.  Every assignment of windows over three ticks to 2-3 nodes of the stated type (plus a node of another type, which
+    must not matter), for the two per-protocol kinds.  No model run (the model's predicates read per-node flags): the oracle is the
+    definition -- eventually: fails iff some node's window misses every tick 1..T; always: fails iff some node's window misses a
+    tick, and then at the first such tick."""
+    from gradysim.protocol.interface import IProtocol
+    from gradysim.simulator.handler.assertion import (AssertionHandler, FailedAssertionException, assert_eventually_true_for_protocol,
+                                                      assert_always_true_for_protocol)
+    from gradysim.simulator.handler.timer import TimerHandler
+    from gradysim.simulator.simulation import SimulationBuilder, SimulationConfiguration
+    T = 3
+    subsets = [frozenset(c) for r in range(T + 1) for c in itertools.combinations(range(1, T + 1), r)]
+    for nn in (2, 3):
+        for windows in itertools.product(subsets, repeat=nn):
+            for kind in ("EP", "AP"):
+                shared = {"tick": 0}
+
+                class Ticker(IProtocol):
+                    def initialize(self):
+                        if self.provider.get_id() == 0:
+                            self.provider.schedule_timer("tick", self.provider.current_time() + 1)
+
+                    def handle_timer(self, timer):
+                        shared["tick"] += 1
+                        if shared["tick"] < T:
+                            self.provider.schedule_timer("tick", self.provider.current_time() + 1)
+
+                    def handle_packet(self, message):
+                        pass
+
+                    def handle_telemetry(self, telemetry):
+                        pass
+
+                    def finish(self):
+                        pass
+
+                class Bystander(Ticker):
+                    def initialize(self):
+                        pass
+
+                class Other(IProtocol):
+                    initialize = handle_timer = handle_packet = handle_telemetry = finish = lambda self, *a: None
+
+                def pred(node, windows=windows, kind=kind):
+                    # (before the first event the counter is 0: 'always' predicates hold there, 'eventually' ones do not)
+                    if shared["tick"] == 0:
+                        return kind == "AP"
+                    return shared["tick"] in windows[node.id]
+                deco = assert_eventually_true_for_protocol if kind == "EP" else assert_always_true_for_protocol
+                b = SimulationBuilder(SimulationConfiguration(execution_logging=False))
+                b.add_handler(TimerHandler())
+                b.add_handler(AssertionHandler([deco(Ticker, "shared")(pred)]))
+                for i in range(nn):
+                    b.add_node(Ticker if i == 0 else Bystander, (0, 0, 0))
+                b.add_node(Other, (0, 0, 0))
+                failed_at = None
+                try:
+                    b.build().start_simulation()
+                except FailedAssertionException:
+                    failed_at = shared["tick"]
+                if kind == "EP":
+                    want = T if any(not w for w in windows) else None
+                else:
+                    miss = [t for t in range(1, T + 1) if any(t not in w for w in windows)]
+                    want = miss[0] if miss else None
+                case = {"kind": kind, "windows": [sorted(w) for w in windows], "ticks": T}
+                chk.record("assert-shared-state-exhaustive", case, True)
+                chk.validated += 1
+                if failed_at != want:
+                    def say(x):
+                        return "did not fail" if x is None else "failed after event %d" % x
+                    chk.violation("assert-shared-state-exhaustive", case,
+                                  ["C18: %s-for-protocol over predicates true while a shared counter is in %s (one window per node): the run %s, "
+                                   "by the definition it %s" % ("eventually" if kind == "EP" else "always", case["windows"], say(failed_at),
+                                                                  "should not fail" if want is None else "fails after event %d" % want)])
+                    if len(chk.violations) > 20:
+                        return
+
 
 def check_C18(chk, R, S):
     chk.rule = ("scripted protocols toggling the flag the predicates read; 1-3 nodes of 3 protocol types (one a subclass), "
@@ -2252,6 +2332,7 @@ def check_C18(chk, R, S):
                    "mob": (1.0, 1.0, (0.0, 0.0, 0.0)), "asserts": [kind], "seed": 1, "dur": None, "maxit": None,
                    "drv": ("run",), "script": [[]]})
     run_sim_class(chk, "assert-timelines-exhaustive", ex, [M.mon_C18])
+    assert_shared_state_class(chk)
     chk.exhaustive = True
 
 
